@@ -135,6 +135,8 @@ def run(ctx):
     args = ["replay", "-out", res, "-trace", trace]
     if prof["faults"]:
         args.append("-faults")
+    if prop == "C02":
+        args.append("-debugruns")
     rrep = ctx.run_bin("xp", args + vecs, timeout=1500)
     mm = re.search(r"(\d+) listings outside the instruction vocabulary", rrep.stderr or "")
     unknown_listings = int(mm.group(1)) if mm else 0
@@ -193,7 +195,7 @@ def run(ctx):
                          dict(kind="trace", failure=f, how="bin/check %s --tier %s; event index 'at' in the recorded trace of run id" % (prop, ctx.tier)))
     KINDS = {
         "C01": {"result:bool", "result:string", "result:number", "error", "panic", "compile", "hang"},
-        "C02": {"calls", "prog", "compile", "panic", "history", "hang", "result:bool", "result:string", "result:number", "error"},
+        "C02": {"calls", "prog", "compile", "panic", "history", "hang", "result:bool", "result:string", "result:number", "error", "debug-calls", "debug-result"},
         "C03": {"variant-compile", "variant-prog", "variant-result", "prog", "compile", "hang"},
         "C05": {"fault-error", "fault-panic", "fault-accessor", "fault-neither", "panic", "hang"},
     }[prop]
